@@ -67,7 +67,7 @@ def _layout(draw):
 
 @st.composite
 def strategy_(draw):
-    part = draw(st.sampled_from(["A", "A", "A", "A", "A", "B", "B", "B", "B", "B", "B", "M", "M", "C", "C", "C", "D", "D", "D", "D"]))
+    part = draw(st.sampled_from(["A", "A", "A", "A", "A", "B", "B", "B", "B", "B", "B", "M", "M", "C", "C", "C", "D", "D", "D", "D", "P", "P", "P"]))
     if part == "A":
         desc, custom = draw(_layout())
         keys = draw(st.lists(st.sampled_from(PROBE_KEYS), min_size=2, max_size=5, unique=True))
@@ -78,11 +78,11 @@ def strategy_(draw):
         j = draw(GF.forms(depth=draw(st.sampled_from([0, 1, 2]))))
         txt, how = draw(GF.corrupt(j))
         return {"part": "M", "text": txt, "how": how}
-    if part == "C":
+    if part in ("C", "P"):
         desc, custom = draw(_layout())
         n = M.length_of(desc)
         ranges = draw(st.lists(st.tuples(st.integers(-n - 2, n + 2), st.integers(-n - 2, n + 2)), min_size=1, max_size=3))
-        return {"part": "C", "desc": desc, "typestrs": custom, "ranges": [list(r) for r in ranges]}
+        return {"part": part, "desc": desc, "typestrs": custom, "ranges": [list(r) for r in ranges]}
     profile = draw(st.sampled_from(["plain", "plain", "plain", "wild"]))
     T = draw(GF.xtypes(depth=draw(st.sampled_from([1, 2, 3])), profile=profile))
     length = draw(st.sampled_from([None, None, 0, 3, 12]))
@@ -469,6 +469,19 @@ def _item_candidates(T):
     raise ValueError(T)
 
 
+def _item_strings(T):
+    """which of 'string' / 'bytes' an element of an array of item type T may be (through options and unions)"""
+    k = T[0]
+    if k == "option":
+        return _item_strings(T[1])
+    if k == "union":
+        out = set()
+        for t in T[1]:
+            out |= _item_strings(t)
+        return out
+    return {k} if k in ("string", "bytes") else set()
+
+
 def _uncategorical(T):
     p = dict(TS.meta(T).get("parameters") or {})
     if p.get("__categorical__") is True:
@@ -531,6 +544,128 @@ def run_C(case, hh):
         # the element's value is the one the nested-list value has there, hence conforms to the item type
         tags.append("element:" + kind)
     return {"tags": sorted(set(tags)) + sorted(GF.type_classes(T)), "nontrivial": _nontrivial_type(T) and len(vals) > 0, "sample_class": "C:" + T[0]}
+
+
+# =========================================================================================== part P (Python level)
+def _py_scalar_ok(prim, e):
+    """box() of the binding turns a zero-dimensional NumpyArray into a Python number: the width is gone, the kind must remain"""
+    if prim == "bool":
+        return isinstance(e, bool)
+    if prim.startswith(("int", "uint")):
+        return isinstance(e, int) and not isinstance(e, bool)
+    if prim.startswith("float"):
+        return isinstance(e, float)
+    if prim.startswith("complex"):
+        return isinstance(e, complex)
+    return True
+
+
+def run_P(case, hh):
+    """the same statements through the Python layer: ak.Array / ak.type / ak.fields / layout.form / ak.forms.Form.fromjson"""
+    from checks import pcommon as P
+    A = P.ak()
+    desc = case["desc"]
+    custom = case.get("typestrs") or {}
+    ts, _ = _ts_pairs(custom)
+    T = TS.type_of(desc)
+    Tplain, vals = M.decode(desc)
+    n = len(vals)
+    behavior = {("__typestr__", k): v for k, v in custom.items()} or None
+    arr = A.Array(D.build(desc), behavior=behavior)
+    tags = ["part:P"] + sorted(GF.type_classes(T))
+    if custom:
+        tags.append("P:custom_typestrs")
+    # ---- ak.type(array) is `length * type`, the type printed as the documents say
+    t = A.type(arr)
+    want = TS.show_array(T, n, ts)
+    if not isinstance(t, A.types.ArrayType) or str(t) != want or str(arr.type) != want:
+        raise Violation("P:type|" + T[0], "ak.type(array) differs from '<length> * <datashape of the value's type>'", expected=want, observed=str(t))
+    # ---- the type obtained from the form equals the type obtained from the array
+    form = arr.layout.form
+    tf = form.type(A._util.typestrs(behavior))
+    ta = arr.layout.type(A._util.typestrs(behavior))
+    if str(tf) != str(ta) or not (tf == ta) or str(tf) != TS.show(T, ts):
+        raise Violation("P:type_form_vs_array|" + desc["class"], "layout.form.type(typestrs) differs from layout.type(typestrs)", expected=str(ta), observed=str(tf))
+    if not (t.type == ta) or t.length != n:
+        raise Violation("P:arraytype_parts", "ak.type(array).type / .length are not the layout's type / length", expected=[str(ta), n], observed=[str(t.type), t.length])
+    # ---- depth and field queries
+    if arr.ndim != TS.purelist_depth(T) or arr.layout.purelist_depth != TS.purelist_depth(T) or form.purelist_depth != TS.purelist_depth(T):
+        raise Violation("P:ndim", "array.ndim / purelist_depth disagree with the nested-list value", expected=TS.purelist_depth(T),
+                        observed=[arr.ndim, arr.layout.purelist_depth, form.purelist_depth])
+    ks = TS.keys(T)
+    got = A.fields(arr)
+    if list(got) != list(ks) or list(arr.fields) != list(ks):
+        raise Violation("P:fields", "ak.fields(array) disagrees with the value's record fields", expected=ks, observed=list(got))
+    if arr.layout.purelist_isregular != TS.purelist_isregular(T):
+        raise Violation("P:isregular", "purelist_isregular disagrees with the value's type", expected=TS.purelist_isregular(T), observed=arr.layout.purelist_isregular)
+    # ---- the form survives JSON through the Python API (parameters by JSON value)
+    for verbose in (True, False):
+        k, text = _outcome(lambda: form.tojson(False, verbose))
+        if k != "ok":
+            raise Violation("P:tojson_raises", "form.tojson raises %s: %s" % (k, _first_line(text)))
+        k, f2 = _outcome(lambda: A.forms.Form.fromjson(text))
+        if k != "ok":
+            raise Violation("P:reread_refused", "ak.forms.Form.fromjson refuses what form.tojson printed: " + _first_line(f2), observed=text[:400])
+        if not (f2 == form) or (f2 != form):
+            raise Violation("P:form_equal", "ak.forms.Form.fromjson(form.tojson()) != form", observed=text[:400])
+        diff = MF.form_equal(_form_info(f2._h), _form_info(form._h))
+        if diff:
+            raise Violation("P:form_reread|" + _where(diff), "ak.forms.Form.fromjson(form.tojson()) is a different form: " + diff, observed=text[:400])
+        t2 = f2.type(A._util.typestrs(behavior))
+        tdiff = _structure_diff(_tinfo(tf._h), _tinfo(t2._h))      # parameters by JSON value: their text is re-spaced by the JSON writer
+        if tdiff:
+            raise Violation("P:form_type_survives", "the type of the form changes over Form -> JSON -> Form: " + tdiff, expected=str(tf), observed=str(t2))
+    # ---- range slices keep the item type
+    item = TS.show(T, ts)
+    for a, b in case["ranges"]:
+        r = arr[a:b]
+        m = len(vals[a:b])
+        if not isinstance(r, A.Array) or str(A.type(r)) != "%d * %s" % (m, item):
+            raise Violation("P:range_type|" + desc["class"], "array[%d:%d] does not have type '<its length> * <the item type>'" % (a, b),
+                            expected="%d * %s" % (m, item), observed=str(A.type(r)) if isinstance(r, (A.Array, A.Record)) else repr(r))
+        tags.append("range:empty" if m == 0 else "range:nonempty")
+    # ---- every element taken out has a type the array's type promises for its items
+    cands = _item_candidates(_uncategorical(T))
+    for i in range(min(n, 6)):
+        e = arr[i]
+        if e is None:
+            kind, shown = "none", None
+        elif isinstance(e, A.Record):
+            kind, shown = "record", str(A.type(e))
+        elif isinstance(e, A.Array):
+            kind, shown = "array", str(A.type(e))
+        elif isinstance(e, (bool, int, float, complex)):
+            kind, shown = "scalar", e
+        elif isinstance(e, (str, bytes)):
+            # the string behaviours hand out Python str / bytes for an element of a string / bytestring array
+            kind, shown = "pystring", "string" if isinstance(e, str) else "bytes"
+            if shown not in _item_strings(_uncategorical(T)):
+                raise Violation("P:element_type|pystring", "array[%d] is a Python %s although the item type is no %s" % (i, type(e).__name__, shown),
+                                expected=TS.show(T, ts), observed=repr(e)[:200])
+            if not M.same_value(e, vals[i]):
+                raise Violation("P:element_value|pystring", "array[%d] is not the string the value has there" % i, expected=M.jsonable(vals[i]), observed=repr(e)[:200])
+            tags.append("element:pystring")
+            continue
+        else:
+            raise Violation("P:element_class", "array[%d] is a %s" % (i, type(e).__name__), observed=repr(e)[:200])
+        ok = False
+        for ck, ct in cands:
+            if ck != kind:
+                continue
+            if kind == "none":
+                ok = True
+            elif kind == "scalar":
+                ok = ok or _py_scalar_ok(ct[1], e)
+            elif kind == "record":
+                ok = ok or (TS.show(ct, ts) == shown)
+            else:
+                ok = ok or (shown == "%d * %s" % (len(e), TS.show(ct, ts)))
+        if not ok:
+            promised = [("None" if ct is None else (ct[1] if ck == "scalar" else TS.show(ct, ts))) for ck, ct in cands]
+            raise Violation("P:element_type|" + kind, "array[%d] has a type the array's type does not promise for its items" % i,
+                            expected=promised, observed=[kind, repr(shown)[:200]])
+        tags.append("element:" + kind)
+    return {"tags": sorted(set(tags)), "nontrivial": _nontrivial_type(T) and n > 0, "sample_class": "P:" + T[0]}
 
 
 # =========================================================================================== part D
@@ -652,9 +787,20 @@ def _json_leaves(v):
         yield v
 
 
+def _types_api():
+    """(the namespace holding the Type classes, from_datashape): the repository's own `awkward.types`, imported from /repo/src and
+    running on the /verif emulation of awkward._ext (tier P).  akshim.typeparser is the stand-alone fallback (a stub package with
+    the same classes) for an interpreter in which the package cannot be imported."""
+    if os.environ.get("C17_TYPEPARSER_STUB"):
+        from akshim import typeparser as TP
+        return TP, TP.load()
+    from checks import pcommon as P
+    A = P.ak()
+    return A.types, A.types.from_datashape
+
+
 def run_D(case, hh):
-    from akshim import typeparser as TP
-    parse = TP.load()
+    TP, parse = _types_api()
     T, length = case["type"], case["length"]
     obj = _build_type(T, TP)
     high_level = length is not None
@@ -832,6 +978,8 @@ def run_case(case):
             return run_C(case, hh)
         if part == "D":
             return run_D(case, hh)
+        if part == "P":
+            return run_P(case, hh)
         if part == "F":
             return run_fuzz(case)
         if part == "FI":
